@@ -98,6 +98,13 @@ theorem noErr_labels (cur : Token) (rest : List Token) (lb : List String) (syms 
       split
       · exact noErr_stop _ _
       · exact (ih t r rfl).1 _ _
+  · cases rest with
+    | nil => exact noErr_hang _
+    | cons t r =>
+      simp only
+      split
+      · exact noErr_stop _ _
+      · exact (ih t r rfl).1 _ _
   · exact noErr_stop _ _
   · exact hcl _
 
